@@ -7,7 +7,7 @@ for d in ${SEEDS:-/verif/seeded/C??-?}; do
   n=$(basename $d); p=${n%%-*}
   git -C /repo apply $d/patch.diff 2>/dev/null || { echo "$n: PATCH DOES NOT APPLY" >> $out; continue; }
   res=$(cd /verif && ./check $p --tier quick 2>&1 | grep "^VIOLATION" )
-  git -C /repo checkout -- .
+  git -C /repo checkout -- . ; git -C /repo clean -fdq
   if echo "$res" | grep -qv "no-failing-input-found$" && [ -n "$res" ]; then echo "$n: caught with a failing input ($(echo "$res" | grep -v 'no-failing-input-found$' | head -1 | sed 's/.*replay=//'))" >> $out
   elif [ -n "$res" ]; then echo "$n: ONLY no-failing-input-found" >> $out
   else echo "$n: MISSED" >> $out; fi
